@@ -961,11 +961,11 @@ class TenSym(PySym):
                     axis = self.kw(n, "axis", 0)
                     return self.opaque_tensor(m, [t, axis], t.reduce(axis).shape)
                 if m == "reshape":
-                    args = [self.ex(a) for a in n.args]
+                    args = self.call_args(n)
                     shp = args[0] if len(args) == 1 and isinstance(args[0], (tuple, list)) else args
                     return t.reshape([self.concrete(x) for x in shp])
                 if m == "transpose":
-                    args = [self.ex(a) for a in n.args]
+                    args = self.call_args(n)
                     perm = args[0] if len(args) == 1 and isinstance(args[0], (tuple, list)) else (args or None)
                     return t.transpose([self.concrete(x) for x in perm] if perm else None)
                 if m == "swapaxes":
